@@ -84,9 +84,9 @@ macro_rules! step_any {
         }
     };
 }
-step_any!(step_any_n4, 4, 8);
-step_any!(step_any_n5, 5, 9);
-step_any!(step_any_n6, 6, 10);
+step_any!(step_any_n4, 4, 10);
+step_any!(step_any_n5, 5, 10);
+step_any!(step_any_n6, 6, 11);
 
 /// One harness per first-byte class with the first byte CONCRETE (symbolic execution then only
 /// walks that class' reader) — deeper bound.
